@@ -202,10 +202,17 @@ type lockedWriter struct {
 	ws []*bytes.Buffer
 }
 
+// maxCapture bounds what is kept of a child's output (a runaway child must not fill memory);
+// writing beyond it fails, which makes the child's next write fail and ends it.
+const maxCapture = 1 << 28
+
 func (t *lockedWriter) Write(p []byte) (int, error) {
 	t.mu.Lock()
 	defer t.mu.Unlock()
 	for _, w := range t.ws {
+		if w.Len() > maxCapture {
+			return 0, fmt.Errorf("output limit exceeded")
+		}
 		w.Write(p)
 	}
 	return len(p), nil
